@@ -49,6 +49,19 @@ pub fn op_int(req: &Value) -> Value {
         "div_floor" => show(&hb::div_floor(a, b())),
         "div_ceil" => show(&hb::div_ceil(a, b())),
         "pow" => show(&a.pow(b())),
+        "pow_nc" => {
+            // operands forced into the Long representation where asked (outside the canonical-form
+            // invariant): the arms of `pow` are driven with representations `From` never produces
+            let force = |key: &str, long: &str| {
+                let s = req[key].as_str().unwrap_or("0");
+                if req[long].as_bool().unwrap_or(false) {
+                    LazyBigint::Long(BigInt::from_str(s).unwrap())
+                } else {
+                    mk(s)
+                }
+            };
+            show(&force("a", "la").pow(force("b", "lb")))
+        }
         "bitand" => show(&(a & b())),
         "bitor" => show(&(a | b())),
         "bitxor" => show(&(a ^ b())),
